@@ -168,6 +168,11 @@ class Ob:
                                      'smt2_head': s.to_smt2()[-600:]})
             return 'unsat'
         if res == z3.sat and any(k.startswith('bitop_') for k in model_dict(s.model())):
+            res = self._refine_bitops(eng, s)
+        if res == z3.unsat:
+            self.unsat += 1
+            return 'unsat'
+        if res == z3.sat and any(k.startswith('bitop_') for k in model_dict(s.model())) and not getattr(self, '_bitops_consistent', False):
             self.unknown += 1
             self.notes.append(f'UNDECIDED {label}: the model depends on an abstracted bit operation')
             return 'unknown'
@@ -194,6 +199,34 @@ class Ob:
         self.unknown += 1
         self.notes.append(f'UNKNOWN {label} ({why}; escalation: {how})')
         return 'unknown'
+
+    def _refine_bitops(self, eng, s, rounds=24):
+        """counterexample-guided refinement of abstracted symbolic bit operations: a model that gives `x op y` a value different from the real
+        operator on the model's own operands is excluded by the (true) ground lemma `x == vx & y == vy => r == vx op vy`, and the query is re-solved.
+        Ends with unsat, with a model whose abstracted results are all exact (a genuine counterexample), or undecided."""
+        self._bitops_consistent = False
+        ops = getattr(getattr(eng, 'ex', None), 'bitops', []) if eng is not None else []
+        if not ops: return z3.sat
+        res = z3.sat
+        for _ in range(rounds):
+            m = s.model(); names = {d.name() for d in m.decls()}
+            lem = []
+            for op, ae, be, r_ in ops:
+                if r_.decl().name() not in names: continue
+                try:
+                    va = m.eval(ae, model_completion=True).as_long(); vb = m.eval(be, model_completion=True).as_long(); vr = m.eval(r_, model_completion=True).as_long()
+                except Exception:
+                    return z3.sat
+                if va < 0 or vb < 0: return z3.sat
+                true = {'BitAnd': va & vb, 'BitOr': va | vb, 'BitXor': va ^ vb}[op]
+                if vr != true: lem.append(z3.Implies(z3.And(ae == va, be == vb), r_ == true))
+            if not lem:
+                self._bitops_consistent = True
+                return z3.sat
+            for l in lem: s.add(l)
+            res = s.check()
+            if res != z3.sat: return res
+        return z3.sat
 
     def _escalate(self, s, label, timeout):
         """a timeout / unknown of the first attempt is never a pass and should not be a spurious exit 2 on a loaded machine either:
